@@ -95,7 +95,7 @@ mod sc {
     #[derive(Clone, Debug)]
     pub enum Body {
         Res(u32), Resd(u32, &'static str), Rep(u32), Probe(u32), Cmd(Box<Body>), Eval(Box<Simple>), EvalSyn,
-        DotMissing, Dot(Box<Simple>), DotSyn, DotIoErr, ExecFail(bool),
+        DotMissing, Dot(Box<Simple>), DotSyn, DotIoErr, ExecFail(bool), EvalEmpty,
     }
     #[derive(Clone, Debug)]
     pub enum Target { Absent, Ext(u32), Fn(&'static str, u32), Bi(&'static str, Body) }
@@ -142,6 +142,7 @@ mod sc {
             Body::Dot(c) => format!("(dot {})", sx_simple(c)),
             Body::DotSyn => "dotsyn".into(),
             Body::DotIoErr => "dotioerr".into(),
+            Body::EvalEmpty => "evalempty".into(),
             Body::ExecFail(i) => format!("(execfail {})", *i as u8),
         }
     }
@@ -244,7 +245,7 @@ mod sc {
     }
     fn to_body(x: &Sx) -> Option<Body> {
         if let Sx::A(a) = x {
-            return match a.as_str() { "evalsyn" => Some(Body::EvalSyn), "dotmissing" => Some(Body::DotMissing), "dotsyn" => Some(Body::DotSyn), "dotioerr" => Some(Body::DotIoErr), _ => None };
+            return match a.as_str() { "evalsyn" => Some(Body::EvalSyn), "dotmissing" => Some(Body::DotMissing), "dotsyn" => Some(Body::DotSyn), "dotioerr" => Some(Body::DotIoErr), "evalempty" => Some(Body::EvalEmpty), _ => None };
         }
         let (h, r) = head(x)?;
         match (h, r.len()) {
@@ -339,10 +340,23 @@ mod sc {
                 Body::Dot(c) => {
                     let text = self.simple(c);
                     let path = format!("/tmp/dot{}", self.files.len());
-                    self.files.push((path.clone(), format!("{text}\n")));
+                    // lines without a command before / after the command keep the command's status
+                    let (pre, post) = (self.pick(&["", "", "# first\n\n", "\n"]), self.pick(&["", "", "\n# last\n", "\n\n", "   \n# end"]));
+                    self.files.push((path.clone(), format!("{pre}{text}\n{post}")));
                     format!("{} {path}", self.pick(&[".", "source"]))
                 }
                 Body::DotIoErr => self.pick(&[". /tmp", "source /tmp", ". /bin"]).to_string(),
+                Body::EvalEmpty => {
+                    // an input without any command: `read_eval_loop` sets `$?` to 0
+                    // an input that holds no command - possibly blank and comment lines (since 4afb140 those do not count
+                    // as executed commands): `.` of such a file, `eval` of such a text
+                    if self.rng.chance(1, 2) {
+                        let path = format!("/tmp/dot{}", self.files.len());
+                        let text = self.pick(&["\n", "# nothing\n", "  \n\n", "# a\n\n   # b\n", "\n\n\n# end"]);
+                        self.files.push((path.clone(), text.to_string()));
+                        format!("{} {path}", self.pick(&[".", "source"]))
+                    } else { self.pick(&["eval \"\"", "eval \"  \"", "eval \"# nothing\"", "eval", "eval \"\n# c\n\n\""]).to_string() }
+                }
                 Body::ExecFail(_) => self.pick(&["exec no_such_command_xyz", "exec /nonexistent/cmd"]).to_string(),
                 Body::DotSyn => {
                     let path = format!("/tmp/dot{}", self.files.len());
@@ -370,7 +384,7 @@ mod sc {
                                     "times x", "unset -x", "export -x", "readonly -x", "exec -x", "shift x", "trap -x", "eval -x", ". -x",
                                     "shift 1 2"]).to_string()
                     } else if ty == "ma" && *n == 2 && self.rng.chance(1, 3) {
-                        self.pick(&["alias -x", "getopts", "cd /nonexistent/dir"]).to_string()
+                        self.pick(&["alias -x", "getopts", "cd /nonexistent/dir", "command -x", "command --no-such-option st 0"]).to_string()
                     } else { format!("b_{ty} rep {n}") }
                 }
             }
@@ -472,6 +486,7 @@ hret0() { probe 7; return 0; probe 8; }\nhret1() { probe 7; return 1; probe 8; }
                     88..=89 => Body::DotIoErr,
                     90..=91 => Body::Resd(127, "abort"),
                     92..=93 => Body::ExecFail(self.interactive),
+                    94..=97 => Body::EvalEmpty,
                     _ => Body::Rep(1),
                 },
                 "ma" => match k {
@@ -530,6 +545,14 @@ hret0() { probe 7; return 0; probe 8; }\nhret1() { probe 7; return 1; probe 8; }
             };
             let nlines = 1 + self.rng.below(3);
             let mut lines = vec![];
+            if self.rng.chance(1, 40) {
+                // an input without commands after an exempt failure (the shape oracle (3) speaks about)
+                let plain = |t: Target| Simple { w: Words::Ok, t, r: Redirs::None, a: Assigns::None };
+                let n = *self.rng.pick(&[0, 0, 1]);
+                let e = if self.rng.chance(1, 2) { Target::Bi("sp", Body::EvalEmpty) } else { Target::Bi("ma", Body::Cmd(Box::new(Body::EvalEmpty))) };
+                let p = self.probe();
+                lines.push(Line::Cmds(vec![Stmt::Neg(plain(Target::Bi("ma", Body::Res(n)))), Stmt::Plain(plain(e)), p]));
+            }
             for k in 0..nlines {
                 if k > 0 && self.rng.chance(1, 8) { lines.push(Line::SynErr); continue; }
                 let mut v = vec![self.stmt()];
@@ -743,7 +766,7 @@ hret0() { probe 7; return 0; probe 8; }\nhret1() { probe 7; return 1; probe 8; }
     /// the table, independent of the Lean Spec): class and exit status of the first part that fails
     fn body_error(special: bool, b: &Body) -> Option<(&'static str, u32)> {
         match b {
-            Body::Res(_) | Body::Resd(..) | Body::Probe(_) | Body::DotIoErr | Body::ExecFail(_) => None,
+            Body::Res(_) | Body::Resd(..) | Body::Probe(_) | Body::DotIoErr | Body::ExecFail(_) | Body::EvalEmpty => None,
             Body::Rep(n) => if special && *n != 0 { Some(("special-builtin", *n)) } else { None },
             Body::Cmd(inner) => body_error(false, inner),
             Body::Eval(c) | Body::Dot(c) => shell_error(c),
@@ -808,6 +831,23 @@ hret0() { probe 7; return 0; probe 8; }\nhret1() { probe 7; return 1; probe 8; }
             if aborted && n != 0 { return "FAIL:exit-trap-ran-after-abort".into(); }
             if !aborted && n != 1 { return format!("FAIL:exit-trap-ran-{n}-times"); }
             verdict = "ok".into();
+        }
+        // (3) POSIX `.`/`eval` (docs/src/builtins/source.md, eval.md): "zero if no command is executed" — a first line of the
+        //     shape `! <built-in that only returns a status>; <eval/. of an input without commands>; probe m` must print `m:0`
+        //     first, errexit on or off, interactive or not: the exempt `!` cannot end the shell and the empty input resets `$?`
+        if let Some(Line::Cmds(first)) = c.lines.first() {
+            if let [Stmt::Neg(a), Stmt::Plain(b), Stmt::Plain(p), ..] = first.as_slice() {
+                let clean = |s: &Simple| matches!(s.w, Words::Ok) && matches!(s.r, Redirs::None) && matches!(s.a, Assigns::None);
+                let a_ok = clean(a) && matches!(&a.t, Target::Bi(ty, Body::Res(_)) if *ty == "ma" || *ty == "el");
+                let b_ok = clean(b) && (matches!(&b.t, Target::Bi("sp", Body::EvalEmpty))
+                    || matches!(&b.t, Target::Bi("ma", Body::Cmd(i)) if matches!(**i, Body::EvalEmpty)));
+                if let (true, true, true, Target::Bi("ma", Body::Probe(m))) = (a_ok, b_ok, clean(p), &p.t) {
+                    if entries.first().copied() != Some(format!("{m}:0").as_str()) {
+                        return format!("FAIL:input-without-commands-must-leave-status-0:expected-first-probe-{m}:0");
+                    }
+                    if verdict == "-" { verdict = "ok".into(); }
+                }
+            }
         }
         if c.interactive { return verdict; }
         let Some(Line::Cmds(first)) = c.lines.first() else { return verdict };
@@ -1105,6 +1145,7 @@ hret0() { probe 7; return 0; probe 8; }\nhret1() { probe 7; return 1; probe 8; }
             for l in &c.lines {
                 match l {
                     NLine::SynErr => body.push_str(r.r.pick(&["fi\n", ")\n", "st 0 && ;\n", "done\n"])),
+                    NLine::Cmds(v) if v.is_empty() => body.push_str(r.r.pick(&["\n", "# a comment\n", "   \n"])),
                     NLine::Cmds(v) => { body.push_str(&r.list(v)); body.push('\n'); }
                 }
             }
@@ -1113,6 +1154,7 @@ hret0() { probe 7; return 0; probe 8; }\nhret1() { probe 7; return 1; probe 8; }
                 for l in ls {
                     match l {
                         NLine::SynErr => text.push_str(r.r.pick(&["fi\n", ")\n", "done\n"])),
+                        NLine::Cmds(v) if v.is_empty() => text.push_str(r.r.pick(&["\n", "# a comment\n"])),
                         NLine::Cmds(v) => { text.push_str(&r.list(v)); text.push('\n'); }
                     }
                 }
@@ -1274,7 +1316,8 @@ hret0() { probe 7; return 0; probe 8; }\nhret1() { probe 7; return 1; probe 8; }
                         self.g.depth += 1;
                         let l = self.list(1, false, false, false);
                         self.g.depth -= 1;
-                        Some(vec![p99, NLine::Cmds(l)])
+                        if self.g.rng.chance(1, 2) { Some(vec![NLine::Cmds(vec![]), p99, NLine::Cmds(l), NLine::Cmds(vec![])]) }
+                        else { Some(vec![p99, NLine::Cmds(l)]) }
                     }
                     _ => Some(vec![p99, NLine::SynErr, NLine::Cmds(vec![NCmd::Ctl(Ctl::Probe(98))])]),
                 };
@@ -1284,6 +1327,7 @@ hret0() { probe 7; return 0; probe 8; }\nhret1() { probe 7; return 1; probe 8; }
                 if self.sig { lines.push(NLine::Cmds(vec![NCmd::Ctl(Ctl::TrapSig(self.g.rng.below(5) as u8))])); }
                 for k in 0..nlines {
                     if k > 0 && self.g.rng.chance(1, 8) { lines.push(NLine::SynErr); continue; }
+                    if self.g.rng.chance(1, 6) { lines.push(NLine::Cmds(vec![])); }
                     let mut v = vec![self.ncmd(depth, false, false, false)];
                     if self.g.rng.chance(1, 3) { v.push(self.ncmd(depth.saturating_sub(1), false, false, false)); }
                     v.push(NCmd::Ctl(Ctl::Probe(self.g.m())));
@@ -1443,6 +1487,46 @@ hret0() { probe 7; return 0; probe 8; }\nhret1() { probe 7; return 1; probe 8; }
 
 }
 
+/// `rp <status> <frame, top first>…`: `yash_builtin::common::report::report` on an Env with that frame stack
+fn rp_case(case: &str) -> (String, String) {
+    use futures_util::FutureExt as _;
+    use yash_env::semantics::{Divert, ExitStatus, Field};
+    use yash_env::source::pretty::{Report, ReportType};
+    use yash_env::stack::{Builtin, Frame, Stack};
+    let f: Vec<&str> = case.split(' ').filter(|s| !s.is_empty()).collect();
+    if f.len() < 2 || f[0] != "rp" { return ("bad-case".into(), "-".into()); }
+    let Ok(st) = f[1].parse::<i32>() else { return ("bad-case".into(), "-".into()) };
+    let mut frames = vec![];
+    for name in f[2..].iter().rev() {
+        frames.push(match *name {
+            "loop" => Frame::Loop, "sub" => Frame::Subshell, "cond" => Frame::Condition, "dot" => Frame::DotScript,
+            "init" => Frame::InitFile, "trap" => yash_env::trap::Condition::Exit.into(),
+            "bs" => Builtin { name: Field::dummy("b"), is_special: true }.into(),
+            "bn" => Builtin { name: Field::dummy("b"), is_special: false }.into(),
+            _ => return ("bad-case".into(), "-".into()),
+        });
+    }
+    // the property's own statement: the innermost built-in decides
+    let innermost = f[2..].iter().find(|n| **n == "bs" || **n == "bn").copied();
+    let obs = yverif::proto::guarded(|| {
+        let mut env = yash_env::Env::new_virtual();
+        env.stack = Stack::from(frames);
+        let mut report = Report::new();
+        report.r#type = ReportType::Error;
+        report.title = "planted error".into();
+        let Some(r) = yash_builtin::common::report::report(&mut env, report, ExitStatus(st)).now_or_never() else { return "PENDING".into() };
+        let div = match r.divert() {
+            std::ops::ControlFlow::Continue(()) => "cont".to_string(),
+            std::ops::ControlFlow::Break(Divert::Interrupt(None)) => "Interrupt:-".to_string(),
+            std::ops::ControlFlow::Break(d) => format!("{d:?}").replace(' ', ""),
+        };
+        format!("status={} div={div}", r.exit_status().0)
+    });
+    let want = if innermost == Some("bs") { "Interrupt:-" } else { "cont" };
+    let oracle = if obs == format!("status={st} div={want}") { "ok".to_string() } else { format!("FAIL:report-divert:expected-{want}") };
+    (obs, oracle)
+}
+
 /// `rd <seed> (<interactive> <errexit> 0)`: the shell whose main input cannot be read
 fn rd_case(case: &str) -> String {
     let f: Vec<&str> = case.split(|c| c == ' ' || c == '(' || c == ')').filter(|s| !s.is_empty()).collect();
@@ -1480,6 +1564,11 @@ fn main() {
         if c.starts_with("sc ") {
             let obs = sc::run_case(c);
             emit(c, &obs, &sc::oracle(c, &obs));
+            continue;
+        }
+        if c.starts_with("rp ") {
+            let (obs, oracle) = rp_case(c);
+            emit(c, &obs, &oracle);
             continue;
         }
         if c.starts_with("rd ") {
@@ -1546,6 +1635,23 @@ fn main() {
             let case = format!("rd 0 ({i} {e} 0)");
             let obs = rd_case(&case);
             emit(&case, &obs, "-");
+        }
+    }
+    // `report()` on every frame stack of up to 3 frames (585 cases, shard 0 only)
+    if !only_nc && o.shard.0 == 0 {
+        let kinds = ["loop", "sub", "cond", "bs", "bn", "dot", "trap", "init"];
+        let mut stacks: Vec<Vec<&str>> = vec![vec![]];
+        let mut last: Vec<Vec<&str>> = vec![vec![]];
+        for _ in 0..3 {
+            let mut next = vec![];
+            for s in &last { for k in kinds { let mut v = s.clone(); v.push(k); next.push(v); } }
+            stacks.extend(next.iter().cloned());
+            last = next;
+        }
+        for (k, s) in stacks.iter().enumerate() {
+            let case = format!("rp {} {}", 1 + k % 2, s.join(" ")).trim_end().to_string();
+            let (obs, oracle) = rp_case(&case);
+            emit(&case, &obs, &oracle);
         }
     }
     // the `nc` family: structured simple commands at any depth of the enclosing constructs
